@@ -182,13 +182,17 @@ Perturb(env, k, h) ==
       nv == IF IsVecT(a.t) THEN VAdd(a.v, d) ELSE RndM(MMul(a.v, ExpM(GHat(a.t, d))))
   IN [env EXCEPT !.args = [env.args EXCEPT ![i] = [t |-> a.t, v |-> RForce(nv)]]]
 
-\* Hessian of a scalar tree, nx x nx:  H[k0][k1] = d/de J_k0(x (+) e e_k1), by exact central differences
-HessCD(ast, env) ==
+\* Hessian of a tree with values in R^ny (ny = 1 for scalars), nx x (ny nx), in the documented stacked layout:
+\* block j (columns (j-1) nx + 1 .. j nx, nx = total dof of the arguments) is the Hessian of output row j,
+\*   H[k0][(j-1) nx + k1] = d/de J_(j,k0)(x (+) e e_k1),    by exact central differences of the exact J
+HessCD(ast, env, ny) ==
   LET nx == env.nx
-      Jp == RForce([k \in 1..nx |-> Ev(ast, Perturb(env, k, HStep)).J[1]])
-      Jm == RForce([k \in 1..nx |-> Ev(ast, Perturb(env, k, RNeg(HStep))).J[1]])
+      Jp == RForce([k \in 1..nx |-> Ev(ast, Perturb(env, k, HStep)).J])
+      Jm == RForce([k \in 1..nx |-> Ev(ast, Perturb(env, k, RNeg(HStep))).J])
       s == RPow2(HBits - 1)
-  IN RForce([k0 \in 1..nx |-> [k1 \in 1..nx |-> RMul(s, RSub(Jp[k1][k0], Jm[k1][k0]))]])
+  IN RForce([k0 \in 1..nx |-> [c \in 1..(ny * nx) |->
+        LET j == ((c - 1) \div nx) + 1  k1 == ((c - 1) % nx) + 1
+        IN RMul(s, RSub(Jp[k1][j][k0], Jm[k1][j][k0]))]])
 
 ---------------------------------------------------------------------------
 \* domain of the property, re-derived from the logged operands
@@ -251,7 +255,12 @@ ColsOf(env, idx, k) ==
   IF k > Len(idx) THEN <<>>
   ELSE [j \in 1..Dof(env.args[idx[k]].t) |-> env.off[idx[k]] + j] \o ColsOf(env, idx, k + 1)
 SelCols(J, cols) == RForce([r \in 1..Rows(J) |-> [c \in 1..Len(cols) |-> J[r][cols[c]]]])
-SelHess(H, cols) == RForce([a \in 1..Len(cols) |-> [b \in 1..Len(cols) |-> H[cols[a]][cols[b]]]])
+\* Hessian with respect to an index subset: rows and, inside every block, columns of the selected coordinates;
+\* the blocks of the result are n x n with n = Len(cols), block j at columns (j-1) n + 1 .. j n
+SelHess(H, cols, ny, nx) ==
+  LET n == Len(cols)
+  IN RForce([a \in 1..n |-> [c \in 1..(ny * n) |->
+        LET j == ((c - 1) \div n) + 1  b == ((c - 1) % n) + 1 IN H[cols[a]][(j - 1) * nx + cols[b]]]])
 
 ShapeIs(m, r, c) == Len(m) = r /\ \A i \in 1..Len(m) : Len(m[i]) = c
 
@@ -304,7 +313,7 @@ CallChk(e, c, env, O, H, dom) ==
       hes == IF verb \/ ~hasH THEN <<>>
              ELSE IF ~FinM(c.H) THEN Fail(hcl, id, "non-finite", "finite")
              ELSE IF ~ShapeIs(c.H, Len(cols), Len(cols) * ny) THEN Fail(hcl \o ".shape", id, "wrong shape", ToString(Len(cols)) \o "x" \o ToString(Len(cols) * ny))
-             ELSE LET Y == SelHess(H, cols)  X == M(c.H)
+             ELSE LET Y == SelHess(H, cols, ny, env.nx)  X == M(c.H)
                   IN IF ~(dom /\ IsO1(MaxAbs(Y))) THEN <<>>
                      ELSE Chk(hcl, id, AccOk(X, Y, TolHess, SlackH), AccErr(X, Y), TolHess)
   IN pre \o restore \o arity \o value \o ana \o num \o hes
@@ -315,13 +324,15 @@ CallCells(e, c, env, O, H, dom) ==
       verb == Verbatim(e, c)
       sfx == IF c.sub = 1 THEN "C08.subset" ELSE "C08"
       jdec == dom /\ IsO1(MaxAbs(SelCols(O.J, cols)))
-      hdec == dom /\ IsO1(MaxAbs(SelHess(H, cols)))
+      hdec == dom /\ IsO1(MaxAbs(SelHess(H, cols, Dof(O.ty), env.nx)))
   IN <<"call|" \o e.fn \o "|" \o CallId(c), "clause|C08.restore." \o c.cm, "clause|" \o sfx \o ".value"
        >> \o (IF c.K = 0 THEN <<"clause|C08.subset.k0">>
-             ELSE IF verb THEN <<"clause|C08.analytic.K" \o ToString(c.K) \o "." \o c.mode>>
+             ELSE IF verb THEN <<"clause|C08.analytic.K" \o ToString(c.K) \o "." \o c.mode,
+                                  "acc|" \o e.fn \o "|analytic.K" \o ToString(c.K)>>
              ELSE (IF jdec THEN <<"clause|" \o sfx \o ".jac" \o (IF c.K = 2 THEN ".k2" ELSE ""), "acc|" \o e.fn \o "|jac">>
                    ELSE <<"skipped|jac.notO1">>)
-                  \o (IF c.K < 2 THEN <<>> ELSE IF hdec THEN <<"clause|" \o sfx \o ".hess", "acc|" \o e.fn \o "|hess">>
+                  \o (IF c.K < 2 THEN <<>> ELSE IF hdec THEN <<"clause|" \o sfx \o ".hess", "acc|" \o e.fn \o "|hess",
+                                                                  "shape|" \o sfx \o ".hess.ny" \o ToString(Dof(O.ty)) \o ".args" \o ToString(Len(c.idx))>>
                       ELSE <<"skipped|hess.notO1">>))
 
 NeedsHess(e) == \E i \in 1..Len(e.calls) : e.calls[i].K = 2 /\ ~Verbatim(e, e.calls[i])
@@ -341,7 +352,7 @@ CheckDr(e) ==
          \* the callable is the function the tree denotes (binds harness and specification)
          vdef == Chk("C08.value.def", "-", ValueOk(O.ty, O.v, fx), ValueErr(O.ty, O.v, fx), TolValue)
          dom == IsO1(RMax(ValueMax(O.ty, O.v), O1Lo))          \* values at most 10
-         H == IF NeedsHess(e) THEN HessCD(e.ast, env) ELSE <<>>
+         H == IF NeedsHess(e) THEN HessCD(e.ast, env, Dof(O.ty)) ELSE <<>>
          res == Flat([i \in 1..Len(e.calls) |-> CallChk(e, e.calls[i], env, O, H, dom)])
          cells == Flat([i \in 1..Len(e.calls) |-> CallCells(e, e.calls[i], env, O, H, dom)])
      IN <<vdef \o res, cells \o <<"point|" \o e.fn \o (IF dom THEN "" ELSE "|valueNotO1")>>>>
